@@ -177,6 +177,13 @@ func (server *Server) ServeCodec(codec ServerCodec) {
 			})
 		}
 	}
+	// The queue's Close runs the tasks that are still queued in the caller's
+	// goroutine, concurrently with (and ahead of) the one its worker is still
+	// executing. Let the worker finish everything first: the read loop has
+	// ended, so nothing is queued behind this barrier.
+	idle := make(chan struct{})
+	pipeline.Schedule(func() { close(idle) })
+	<-idle
 	pipeline.Close()
 	wg.Wait()
 	server.mutex.Lock()
@@ -528,6 +535,11 @@ func (server *Server) listen(sock socket.Socket, address string, New NewServerCo
 			if err == io.EOF || err == io.ErrUnexpectedEOF {
 				if atomic.CompareAndSwapInt32(&svrctx.closed, 0, 1) {
 					if svrctx.pipeline != nil {
+						// See ServeCodec: wait for the worker to finish the
+						// queued decode tasks in order before closing the queue.
+						idle := make(chan struct{})
+						svrctx.pipeline.Schedule(func() { close(idle) })
+						<-idle
 						svrctx.pipeline.Close()
 					}
 					svrctx.wg.Wait()
